@@ -14,7 +14,20 @@ payload has none does not "have the bytes" of the UTF-16 encoding (it matches ot
 The payload reaches the modifiers by one of the entry points `VIAS` (case field `via`, default "mapping"):
 single value / list element / keyword item of `from_mapping`, a rule built with `SigmaRule.from_dict` or
 `from_yaml` (payload as a fully escaped double-quoted scalar), or the modifier classes handed to the `SigmaDetectionItem`
-constructor; the expected value depends on the payload alone, so every entry point is judged alike."""
+constructor; the expected value depends on the payload alone, so every entry point is judged alike.
+
+Spellings: the property names the little-endian modifier `wide/utf16le`; whatever spelling of the encoding modifiers the
+library resolves (the alias `utf16le`, letter-case and '-' / '_' variants of all six names) must either be rejected or
+produce the values of the encoding the name denotes (`meaning`), alone and in front of / as base64 and base64offset.
+
+Value lists: the property holds for every payload, also when it is one of several payloads of one detection item
+(`via` = one of MULTI_VIAS, case fields `list`, `idx`).  Lists of payloads that are related to each other (equal up to
+letter case / Unicode normal form / surrounding blanks, repeated, prefixes of each other, digit strings) and random
+lists are sent through from_mapping (field and keyword), SigmaRule.from_dict and from_yaml; for every element, one of
+the values produced for the *list* must be its encoding (wide, base64: judged against the Lean `utf16` / `b64Spec`)
+resp. for every context one of the produced base64offset values must occur in b64Spec(prefix ++ bytes ++ suffix)
+(driver field `flat` -> `flatResults`, theorem `b64offset_list_complete`).  When the list keeps one value per payload in
+order, the value at the payload's position is judged exactly like a single value as well."""
 from __future__ import annotations
 import itertools, random
 from .common import Verdict, cps, outcome_of_exception
@@ -32,17 +45,30 @@ RULE = ("payloads = all strings up to a length bound over {a, -, ä, €, \\\\, 
         "characters x all chains x entry points {from_mapping single, list element, keyword item, SigmaRule.from_dict, "
         "from_yaml, modifier classes on SigmaDetectionItem}"
         "; UTF-16 byte stream: characters whose UTF-16 code unit bytes are 2A / 3F / 5C ('*', '?', backslash) in "
-        "either byte order, alone and mixed with escaped wildcards")
+        "either byte order, alone and mixed with escaped wildcards"
+        "; spelling stream: the alias utf16le and letter-case / '-' / '_' variants of base64, base64offset, wide, utf16le, "
+        "utf16be, utf16, alone and chained with base64 / base64offset, x payloads x name-resolving entry points: "
+        "rejected or the values of the encoding the name denotes"
+        "; value-list stream: lists of 2..5 payloads (case variants, exact repeats, normal-form variants, blank-padded, "
+        "prefixes of each other, digit strings, random) x all chains x entry points {from_mapping field, keyword, "
+        "SigmaRule.from_dict, from_yaml}: every element of the list is covered by the values produced for the list")
 ASSUMPTIONS = [
     "Python's base64.b64encode / str.encode / bytes.decode are re-implemented in Lean (b64Spec, utf8enc, utf16) and compared on every case",
     "lone surrogates are never generated",
     "values containing wildcards are rejected by the base64 modifiers and are not generated for the wide modifiers",
+    "a modifier name that differs from base64, base64offset, wide, utf16le, utf16be, utf16 only in letter case or '-' / '_' denotes that encoding (it may be rejected)",
+    "a value list is judged by coverage: every element needs its encoding among the values produced for the list; order and repeats are not judged",
 ]
 ALPHA = ["a", "-", "ä", "€", "\\", "=", "A", "\U0001F600", "\\*", "\\?"]
 OFFSET_CHAINS = ["base64offset", "wide|base64offset", "utf16be|base64offset", "utf16|base64offset"]
 PLAIN_CHAINS = ["base64", "wide|base64", "utf16be|base64", "utf16|base64"]
 WIDE = ["wide", "utf16be", "utf16"]
 VIAS = ["mapping", "list", "keyword", "rule", "yaml", "direct"]
+# a value list of several payloads (case fields `list`, `idx`) entering by from_mapping (field / keyword), from_dict, from_yaml
+MULTI_VIAS = ["multi", "multi-keyword", "multi-rule", "multi-yaml"]
+# the encoding each modifier name of the property denotes ("wide/utf16le" is one modifier with two spellings)
+MEANING = {"base64": "base64", "base64offset": "base64offset", "wide": "wide", "utf16le": "wide", "utf16be": "utf16be",
+           "utf16": "utf16"}
 # characters that text clean-up (strip, splitlines, YAML folding, C strings) treats specially; a payload is encoded as written
 BOUNDARY = [" ", "\t", "\n", "\r", "\r\n", "\n\n", "\x0b", "\x0c", "\x00", "\x1f", "\x7f", "\x85", "\xa0", "\u2028",
             "\u3000", "\ufeff", "'", '"']
@@ -126,11 +152,98 @@ def gen_cases(tier, seed, gen, effort):
             if kind == "offset":
                 c["ctxs"] = contexts(rnd, False)
             cases.append(c)
+    # spelling stream: other spellings of the modifier names (the alias of the property text on more payloads)
+    name_vias = [v for v in VIAS if v != "direct"]      # "direct" hands classes over, no name is resolved
+    sp_payloads = ["", "a", "ab", "abc", "whoami", "\u00e4b", "\u20ac", "\U0001F600x", "C:\\Temp\\", "a\\*b", " a\n"]
+    sp_payloads += [rnd.choice(payloads) for _ in range(12 * effort)]
+    k = 0
+    for sp in spellings():
+        pls = sp_payloads if sp == "utf16le" else sp_payloads[:6] + sp_payloads[-3:]
+        for kind, ch in spelled_chains(sp):
+            for pl in dict.fromkeys(pls):
+                for via in (name_vias if sp == "utf16le" else ["mapping", name_vias[1 + k % (len(name_vias) - 1)]]):
+                    c = {"kind": kind, "chain": ch, "payload": pl, "via": via}
+                    if kind == "offset":
+                        c["ctxs"] = contexts(rnd, False)
+                    cases.append(c)
+                k += 1
+    # value-list stream: every element of a list of payloads, every chain, the list entry points in rotation
+    k = 0
+    for lst in related_lists(rnd, payloads):
+        for kind, ch in _all_chains():
+            if k % 3 and ch.split("|")[0] in ("utf16be", "utf16"):      # the three UTF-16 variants share the list handling
+                k += 1
+                continue
+            via = MULTI_VIAS[(k // 2) % len(MULTI_VIAS)] if k % 2 else "multi"
+            for idx in range(len(lst)):
+                c = {"kind": kind, "chain": ch, "payload": lst[idx], "via": via, "list": lst, "idx": idx}
+                if kind == "offset":
+                    c["ctxs"] = contexts(rnd, True)
+                cases.append(c)
+            k += 1
     return cases, True
 
 
 def _all_chains():
     return [("offset", ch) for ch in OFFSET_CHAINS] + [("plain", ch) for ch in PLAIN_CHAINS] + [("wide", ch) for ch in WIDE]
+
+
+def meaning(name: str):
+    """the encoding a modifier spelling denotes: letter case and '-' / '_' separators do not change what a name says"""
+    return MEANING.get(name.lower().replace("-", "").replace("_", ""))
+
+
+def canon(chain: str) -> str:
+    """the chain with every spelling replaced by the canonical name of the encoding it denotes"""
+    return "|".join(meaning(m) or m for m in chain.split("|"))
+
+
+def spellings():
+    """spellings of the six modifier names other than the canonical ones: the documented alias and name variants"""
+    out = ["utf16le"]
+    for n in MEANING:
+        out += [n.upper(), n.capitalize()]
+        for a, b in (("utf16", "utf-16"), ("utf16", "utf_16"), ("16le", "16-le"), ("16le", "16_le"), ("16be", "16-be"),
+                     ("16be", "16_be"), ("utf16le", "utf-16-le"), ("utf16be", "utf-16-be"), ("utf16le", "UTF-16LE"),
+                     ("utf16be", "UTF-16BE"), ("base64", "base-64"), ("base64", "base_64"), ("64offset", "64-offset"),
+                     ("64offset", "64_offset"), ("64offset", "64Offset")):
+            if a in n:
+                out.append(n.replace(a, b))
+    return [x for x in dict.fromkeys(out) if x == "utf16le" or x not in MEANING]
+
+
+def spelled_chains(sp: str):
+    """the (kind, chain) pairs in which the spelling takes the place of the canonical name"""
+    m = meaning(sp)
+    if m == "base64":
+        return [("plain", sp), ("plain", "wide|" + sp)]
+    if m == "base64offset":
+        return [("offset", sp), ("offset", "wide|" + sp)]
+    return [("wide", sp), ("plain", sp + "|base64"), ("offset", sp + "|base64offset")]
+
+
+def related_lists(rnd, payloads):
+    """value lists whose elements are related to each other or arbitrary; no unescaped wildcards"""
+    flip = lambda x: "".join(c.swapcase() if rnd.random() < 0.5 else c for c in x)
+    seeds = ["iex", "http://", "Invoke-Expression", "cmd.exe /c", "a", "ab", "abc", "\u00e4b", "\u00c9cole", "stra\u00dfe",
+             "C:\\Temp\\", "x\\*y", "-enc "]
+    seeds += ["".join(rnd.choice("abcXYZ/ -.1\u00e4\u00d6") for _ in range(rnd.randint(1, 9))) for _ in range(6)]
+    out = []
+    for p in seeds:
+        out += [[p.upper(), p.lower()], [p.lower(), p.upper()], [p, p.swapcase(), p.title()], [p, p], [p, "zz", p.swapcase()],
+                [p, p + " "], [" " + p, p, p + "x"], [p + p, p], [flip(p + "Qq"), flip(p + "Qq"), flip(p + "Qq")]]
+    # normal forms, compatibility characters, characters whose case mappings are not one-to-one, digit strings, empty string
+    out += [["\u00e9", "e\u0301"], ["caf\u00e9", "cafe\u0301", "CAF\u00c9"], ["\u212b", "\u00c5", "\u00e5"], ["\u212a", "K", "k"],
+            ["\u00df", "ss", "SS", "\u1e9e"], ["i", "I", "\u0130", "\u0131"], ["\uff41", "a", "A"], ["\u03c3", "\u03c2", "\u03a3"],
+            ["1", "01", "1.0", "1e0"], ["true", "True", "TRUE"], ["null", "Null", "~"], ["", "a"], ["a", ""], ["", " "],
+            ["a", "b", "a", "B", "A"]]
+    pool = [p for p in payloads if not has_wildcard(p) and len(p) <= 12] or ["a"]
+    for _ in range(25):
+        l = [rnd.choice(pool) for _ in range(rnd.randint(2, 5))]
+        if rnd.random() < 0.5:
+            l.insert(rnd.randrange(len(l) + 1), flip(rnd.choice(l)))
+        out.append(l)
+    return [l for l in out if not any(has_wildcard(x) for x in l)]
 
 
 def sigma_plain(s: str) -> str:
@@ -212,14 +325,62 @@ def _produced(chain: str, payload: str, via: str):
     return v
 
 
+def _produced_all(chain: str, lst, via: str):
+    """the values the modifier chain produces for a value list of several payloads"""
+    from sigma.rule.detection import SigmaDetectionItem
+    if via == "multi":
+        return list(SigmaDetectionItem.from_mapping("f|" + chain, list(lst)).value)
+    if via == "multi-keyword":
+        return list(SigmaDetectionItem.from_mapping("|" + chain, list(lst)).value)
+    from sigma.rule import SigmaRule
+    if via == "multi-rule":
+        rule = SigmaRule.from_dict({"title": "t", "logsource": {"category": "test"},
+                                    "detection": {"sel": {"f|" + chain: list(lst)}, "condition": "sel"}})
+    elif via == "multi-yaml":
+        rule = SigmaRule.from_yaml(YAML_RULE % (chain, "[" + ", ".join(_yaml_scalar(x) for x in lst) + "]"))
+    else:
+        raise ValueError(via)
+    (it,) = rule.detection.detections["sel"].detection_items
+    return list(it.value)
+
+
+def _wide_obs(v):
+    return {"value": cps("".join(p for p in v.s if isinstance(p, str))), "bytes": list(bytes(v)),
+            "special": sum(1 for p in v.s if not isinstance(p, str))}
+
+
+def _run_multi(case):
+    """observation for one element of a value list: all values produced for the list (`all`), and - when the list kept
+    one value per payload - the value at the element's position in the fields of the single-value observation"""
+    lst, idx, via = case["list"], case["idx"], case["via"]
+    chain = case["chain"].split("|")
+    vals = _produced_all(case["chain"], lst, via)
+    positional = len(vals) == len(lst)
+    if case["kind"] == "wide":
+        r = {"outcome": "ok", "all": [_wide_obs(v) for v in vals]}
+        if positional:
+            r.update(r["all"][idx])
+        return r
+    if len(chain) > 1:
+        pre = _produced_all("|".join(chain[:-1]), lst, via)
+        # the value of this payload entering the base64 stage; taken from the payload alone when the list lost the positions
+        inb = bytes(pre[idx]) if len(pre) == len(lst) else bytes(_produced("|".join(chain[:-1]), case["payload"], "mapping"))
+    else:
+        inb = sigma_plain(case["payload"]).encode("utf-8")
+    r = {"outcome": "ok", "inbytes": list(inb), "all": [[cps(x) for x in _value_strings(v)] for v in vals]}
+    if positional:
+        r["values"] = r["all"][idx]
+    return r
+
+
 def run_impl(case):
     chain = case["chain"].split("|")
     via = case.get("via", "mapping")
     try:
+        if "list" in case:
+            return _run_multi(case)
         if case["kind"] == "wide":
-            v = _produced(case["chain"], case["payload"], via)
-            return {"outcome": "ok", "value": cps("".join(p for p in v.s if isinstance(p, str))), "bytes": list(bytes(v)),
-                    "special": sum(1 for p in v.s if not isinstance(p, str))}
+            return dict(_wide_obs(_produced(case["chain"], case["payload"], via)), outcome="ok")
         # value entering the base64 stage
         if len(chain) > 1:
             inbytes = list(bytes(_produced("|".join(chain[:-1]), case["payload"], via)))
@@ -235,27 +396,88 @@ def make_request(case, impl, gen):
     if impl["outcome"] != "ok":
         return {"op": "ping"}
     if case["kind"] == "wide":
-        return {"op": "wide.case", "s": cps(sigma_plain(case["payload"])), "be": case["chain"] == "utf16be", "impl": impl["value"]}
+        return {"op": "wide.case", "s": cps(sigma_plain(case["payload"])), "be": canon(case["chain"]) == "utf16be",
+                "impl": impl.get("value")}
     r = {"op": "b64.case", "v": impl["inbytes"], "ctxs": case.get("ctxs", [])}
+    if "list" in case and case["kind"] == "offset":
+        r["flat"] = [x for a in impl["all"] for x in a]
     g = gen.get("B64")
     if g:
         r["tables"] = {"starts": g["starts"], "cuts": g["cuts"]}
         if not g["lenIsBytes"]:
             r["lenV"] = len(sigma_plain(case["payload"]))
-    if case["kind"] == "offset":
+    if case["kind"] == "offset" and "values" in impl:
         r["impl3"] = impl["values"]
     return r
 
 
-def judge(case, impl, reply):
+def _ident(case, impl):
     io = impl["outcome"]
     via = case.get("via", "mapping")
     key = (case["chain"], case["payload"]) if via == "mapping" else (case["chain"], case["payload"], via)
     fc = "f|" + case["chain"] + ("" if via == "mapping" else f" [entry point: {via}]")
+    if "list" in case:
+        key += (tuple(case["list"]), case["idx"])
+        fc = f"f|{case['chain']} [entry point: {via}, value list {case['list']!r}, element #{case['idx']}]"
     nb = len(case["payload"].encode("utf-8", "surrogatepass"))
     nt = nb >= 2
-    tags = (f"kind:{case['kind']}", f"chain:{case['chain']}", f"len%3:{nb % 3}",
+    cch = canon(case["chain"])
+    tags = (f"kind:{case['kind']}", f"chain:{cch}", f"len%3:{nb % 3}",
             "ascii" if case["payload"].isascii() else "non-ascii", f"impl:{io.split(':')[0]}", f"via:{via}")
+    if cch != case["chain"]:
+        tags += ("spelling:" + ("alias" if "utf16le" in case["chain"].split("|") else "variant"),)
+    return io, key, fc, nt, tags
+
+
+def _show(values):
+    return ["".join(map(chr, x)) for x in values]
+
+
+def _judge_list(case, impl, reply):
+    """one element of a value list: it must be covered by the values produced for the list; the value at its position
+    (when positions are kept) is judged like a single value, a miss there is drift as long as the element is covered"""
+    io, key, fc, nt, tags = _ident(case, impl)
+    n = len(impl["all"])
+    fid = None
+    if case["kind"] == "wide":
+        u16 = reply["utf16"]
+        if u16 is None:
+            return _judge_one(case, impl, reply) if "bytes" in impl else Verdict("ok", "", nt, key, tags=tags)
+        bom = canon(case["chain"]) == "utf16"
+        expect = ([0xFF, 0xFE] if bom else []) + u16
+        covered = any(a["bytes"] == expect and not a["special"] for a in impl["all"])
+        if bom and any(a["bytes"] == [0xEF, 0xBB, 0xBF] + u16 and not a["special"] for a in impl["all"]):
+            fid = "D18"
+        miss = (f"none of the {n} produced values has the bytes of its UTF-16 encoding {bytes(expect)!r}: "
+                f"{[bytes(a['bytes']) for a in impl['all']][:6]!r}")
+    elif case["kind"] == "plain":
+        covered = any(a == [reply["spec"]] for a in impl["all"])
+        miss = (f"none of the {n} produced values {[s for a in impl['all'] for s in _show(a)][:6]!r} is the Base64 text "
+                f"{''.join(map(chr, reply['spec']))!r} of its bytes")
+    else:
+        bad = [ctx for ctx, ok in zip(case["ctxs"], reply["flatResults"]) if ok is not True]
+        covered = not bad
+        miss = (f"none of the values produced for the list {[s for a in impl['all'] for s in _show(a)][:9]!r} occurs in "
+                f"base64(prefix {bad[0]['p']} + payload + suffix {bad[0]['s']})") if bad else ""
+    if not covered:
+        return Verdict("violation", f"{fc}: payload {case['payload']!r}: {miss}", nt, key, finding=fid, tags=tags)
+    if "values" in impl or "bytes" in impl:
+        v = _judge_one(case, impl, reply)
+        if v.status == "violation" and not v.finding:
+            return Verdict("drift", "value list: the value at the element's position is not its encoding, another value of the list is: " + v.what,
+                           nt, key, tags=tags)
+        return v
+    return Verdict("ok", "", nt, key, tags=tags + ("list:positions-not-kept",))
+
+
+def judge(case, impl, reply):
+    if "list" in case and impl["outcome"] == "ok" and not has_wildcard(case["payload"]):
+        return _judge_list(case, impl, reply)
+    return _judge_one(case, impl, reply)
+
+
+def _judge_one(case, impl, reply):
+    io, key, fc, nt, tags = _ident(case, impl)
     if has_wildcard(case["payload"]):
         # payloads are wildcard-free by the property's quantifier; the base64 modifiers must reject them
         if case["kind"] != "wide" and io == "ok":
@@ -272,12 +494,12 @@ def judge(case, impl, reply):
         u16 = reply["utf16"]
         if u16 is None:
             return Verdict("violation", f"payload has no UTF-16 encoding but {fc} produced a value", nt, key, tags=tags)
-        expect = ([0xFF, 0xFE] if case["chain"] == "utf16" else []) + u16
+        expect = ([0xFF, 0xFE] if canon(case["chain"]) == "utf16" else []) + u16
         if impl.get("special"):
             return Verdict("violation", (f"{fc}: {case['payload']!r} (no wildcard in the payload) -> value with {impl['special']} wildcard part(s): "
                                          f"it matches byte strings other than the UTF-16 encoding {bytes(expect)!r}"), nt, key, tags=tags)
         if impl["bytes"] != expect:
-            fid = "D18" if case["chain"] == "utf16" and impl["bytes"] == [0xEF, 0xBB, 0xBF] + u16 else None
+            fid = "D18" if canon(case["chain"]) == "utf16" and impl["bytes"] == [0xEF, 0xBB, 0xBF] + u16 else None
             return Verdict("violation", f"{fc}: {case['payload']!r} -> bytes {bytes(impl['bytes'])!r}, UTF-16 encoding is {bytes(expect)!r}",
                            nt, key, finding=fid, tags=tags)
         st = "ok"
@@ -309,6 +531,10 @@ def shrink(case, v, evaluate):
     while improved and len(cur["payload"]) > 0:
         improved = False
         cands = [dict(cur, payload=cur["payload"][:i] + cur["payload"][i + 1:]) for i in range(len(cur["payload"]))]
+        if "list" in cur:       # the payload is an element of the list: shorten it there, and try shorter lists
+            cands = [dict(c, list=cur["list"][:cur["idx"]] + [c["payload"]] + cur["list"][cur["idx"] + 1:]) for c in cands]
+            cands = [dict(cur, list=cur["list"][:j] + cur["list"][j + 1:], idx=cur["idx"] - (j < cur["idx"]))
+                     for j in range(len(cur["list"])) if j != cur["idx"] and len(cur["list"]) > 2] + cands
         for c, i, r, vv in evaluate(cands):
             if vv.status == "violation" and vv.finding == curv.finding:
                 cur, curv, improved = c, vv, True
